@@ -425,6 +425,32 @@ class Polygon(BaseGeometry):
     def wkt(self):
         return self.wkb.hex()
 
+    # shapely 2 geometries compare and hash by their coordinates (structurally, in vertex order), not by identity
+    def __eq__(self, other):
+        if not isinstance(other, Polygon):
+            return NotImplemented
+        a, b = self._ring(), other._ring()
+        if len(a) != len(b):
+            return False
+        conds = []
+        for p, q in zip(a, b):
+            for u, v in zip(p, q):
+                if isinstance(u, z3.ExprRef) or isinstance(v, z3.ExprRef):
+                    conds.append(lift(u) == lift(v))
+                elif u != v:
+                    return False
+        return bool(SymBool(z3.And(conds))) if conds else True
+
+    def __ne__(self, other):
+        r = self.__eq__(other)
+        return r if r is NotImplemented else not r
+
+    def __hash__(self):
+        r = self._ring()
+        if any(isinstance(v, z3.ExprRef) for p in r for v in p):
+            return 0  # symbolic coordinates: one bucket, equality decides
+        return hash(tuple(tuple(float(v) for v in p) for p in r))
+
     def buffer(self, d, *a, **k):
         if d == 0:
             return self
